@@ -135,6 +135,7 @@ class Seq(V):
 class Dv(V):
     """dict literal with constant string keys"""
     items: dict
+    counter: bool = False
 
 
 @dataclass
@@ -144,6 +145,13 @@ class Mv(V):
     src: str
     cases: list            # [(tuple of guards, V)]
     filtered: bool = False
+
+
+@dataclass
+class Qv(V):
+    """any(...) / all(...) over the image of an abstract sequence: a quantified statement about its elements"""
+    quant: str
+    mv: 'Mv'
 
 
 @dataclass
@@ -738,11 +746,14 @@ class SX:
 
     def try_stmt(self, s: ast.Try, st, frame):
         """body outcomes that raise an exception named by a handler continue in that handler"""
-        if s.finalbody or s.orelse:
-            raise CannotDecide('try with else/finally')
+        if s.finalbody:
+            raise CannotDecide('try with finally')
         res = []
         body = self.block(s.body, [st], frame)
         for o in body:
+            if o.kind == 'fall' and s.orelse:
+                res.extend(self.block(s.orelse, [o.state], frame))      # else: runs when the body completed
+                continue
             if o.kind != 'raise':
                 res.append(o)
                 continue
@@ -785,6 +796,13 @@ class SX:
                     res.append(r)
                     continue
                 s, (base, idx) = r
+                if isinstance(base, Dv) and isinstance(idx, Sv) and isinstance(target.value, ast.Name) and self.eval_comprehensions:
+                    s2 = s.copy()
+                    items = dict(base.items)
+                    items[idx.s] = value
+                    s2.env[target.value.id] = Dv(items, base.counter)
+                    res.append(Outcome(s2, 'fall'))
+                    continue
                 res.append(Outcome(s.with_effect(('setitem', self.show(base), self.show(idx), value, lineno, idx)), 'fall'))
             return res
         if isinstance(target, (ast.Tuple, ast.List)) and isinstance(value, Tv) and len(value.items) == len(target.elts):
@@ -891,7 +909,7 @@ class SX:
         narrow = None
         if isinstance(test, ast.Call) and isinstance(test.func, ast.Name) and test.func.id == 'isinstance' \
                 and len(test.args) == 2 and isinstance(test.args[0], ast.Name):
-            narrow = (test.args[0].id, self.class_names(test.args[1], None))
+            narrow = (test.args[0].id, self.class_names(test.args[1], None, st.env))
         for r in self.eval_x(test, st, frame):
             if isinstance(r, Outcome):
                 rs.append(r)
@@ -1010,6 +1028,8 @@ class SX:
             return True if v.unit.lit is None else bool(v.unit.lit)     # a unit name accepted by a table is not ''
         if isinstance(v, (Dv, Mv)):
             return True
+        if isinstance(v, Qv):
+            return G('truth', (f'{v.quant}({v.mv.src})',))
         raise CannotDecide(f'truth value of {v!r}')
 
     # ---- expressions (list of (State, V) | Outcome)
@@ -1039,6 +1059,16 @@ class SX:
             return [(st, self.const_value(n))]
         if isinstance(n, ast.Name):
             return [(st, self.name(n.id, st, frame))]
+        if isinstance(n, ast.NamedExpr) and isinstance(n.target, ast.Name):
+            res = []
+            for r in self.eval_x(n.value, st, frame):
+                if isinstance(r, Outcome):
+                    res.append(r)
+                    continue
+                s2 = r[0].copy()
+                s2.env[n.target.id] = r[1]
+                res.append((s2, r[1]))
+            return res
         if isinstance(n, ast.JoinedStr) and self.eval_comprehensions:
             # f-string over known pieces: text with <unit-name> placeholders for symbolic units
             cur = [(st, '')]
@@ -1188,6 +1218,14 @@ class SX:
             return [(st, Unk('slice:' + ast.unparse(n)))]
         if isinstance(n, (ast.ListComp, ast.GeneratorExp)) and self.eval_comprehensions:
             return self.comprehension(n, st, frame)
+        if isinstance(n, (ast.ListComp, ast.GeneratorExp)) and len(n.generators) == 1 and isinstance(n.generators[0].target, ast.Name):
+            # a comprehension over a CONCRETE tuple/list (a literal, a local table) is always evaluated
+            try:
+                its = self.eval_x(n.generators[0].iter, st, frame)
+            except CannotDecide:
+                its = []
+            if len(its) == 1 and not isinstance(its[0], Outcome) and isinstance(its[0][1], Tv):
+                return self.comprehension(n, st, frame)
         if isinstance(n, ast.DictComp) and len(n.generators) == 1 and not n.generators[0].ifs and isinstance(n.generators[0].target, ast.Name):
             try:
                 its = self.eval_x(n.generators[0].iter, st, frame)
@@ -1215,9 +1253,12 @@ class SX:
     def comprehension(self, n, st, frame) -> list:
         """[elt for x in it if c]: unrolled over a concrete list; mapped over the generic element of an
         abstract sequence (-> Mv)"""
-        if len(n.generators) != 1 or n.generators[0].is_async or not isinstance(n.generators[0].target, ast.Name):
+        if len(n.generators) != 1 or n.generators[0].is_async:
             raise CannotDecide(f'comprehension shape {ast.unparse(n)[:60]}')
         g = n.generators[0]
+        if not isinstance(g.target, ast.Name):
+            # tuple target over a concrete list: desugared through a fresh name and an unpacking assignment per item
+            return self._comprehension_tuple_target(n, st, frame)
         var = g.target.id
         res = []
         for r in self.eval_x(g.iter, st, frame):
@@ -1295,6 +1336,51 @@ class SX:
             res.append((s0, Unk(ast.unparse(n)[:80])))
         return res
 
+    def _comprehension_tuple_target(self, n, st, frame):
+        g = n.generators[0]
+        res = []
+        for r in self.eval_x(g.iter, st, frame):
+            if isinstance(r, Outcome):
+                res.append(r)
+                continue
+            s0, it = r
+            if not isinstance(it, Tv):
+                raise CannotDecide(f'comprehension with a tuple target over a non-concrete iterable: {ast.unparse(n)[:60]}')
+            saved = dict(s0.env)
+            cur = [(s0, [])]
+            for item in it.items:
+                nxt = []
+                for s_, acc in cur:
+                    for o in self.assign(g.target, item, s_, frame, getattr(n, 'lineno', 0)):
+                        if o.kind != 'fall':
+                            res.append(o)
+                            continue
+                        s2 = o.state
+                        if g.ifs:
+                            test = g.ifs[0] if len(g.ifs) == 1 else ast.copy_location(ast.BoolOp(op=ast.And(), values=list(g.ifs)), n)
+                            tr, fa, rs = self.branch(test, s2, frame)
+                            res.extend(rs)
+                        else:
+                            tr, fa = [s2], []
+                        nxt.extend((sf, acc) for sf in fa)
+                        for stt in tr:
+                            for e in self.eval_x(n.elt, stt, frame):
+                                if isinstance(e, Outcome):
+                                    res.append(e)
+                                else:
+                                    nxt.append((e[0], acc + [e[1]]))
+                cur = nxt
+            for s_, acc in cur:
+                s3 = s_.copy()
+                for t in ast.walk(g.target):
+                    if isinstance(t, ast.Name):
+                        if t.id in saved:
+                            s3.env[t.id] = saved[t.id]
+                        else:
+                            s3.env.pop(t.id, None)
+                res.append((s3, Tv(acc)))
+        return res
+
     def for_unrolled(self, s: ast.For, st, frame):
         """for x in <concrete list>: unrolled; None when the iterable is not a concrete list"""
         if s.orelse:
@@ -1309,6 +1395,8 @@ class SX:
                 outs.append(r)
                 continue
             s0, it = r
+            if isinstance(it, Dv):
+                it = Tv([Sv(k) for k in it.items])
             if not isinstance(it, Tv):
                 return None
             cur = [s0]
@@ -1953,6 +2041,8 @@ class SX:
         if isinstance(base, Dv) and isinstance(idx, Sv):
             if idx.s in base.items:
                 return base.items[idx.s]
+            if getattr(base, 'counter', False):
+                return N(Rat.const(0), 'int')           # a Counter answers 0 for a missing key
             raise CannotDecide(f'key {idx.s!r} not in the dict literal')
         if isinstance(base, Unk) and base.text.endswith('.__UNITS'):
             if isinstance(idx, Uv):
@@ -2005,6 +2095,8 @@ class SX:
             return v.text
         if isinstance(v, Mv):
             return f'[{" | ".join(self.show(c[1]) for c in v.cases)} for each of {v.src}]'
+        if isinstance(v, Qv):
+            return f'{v.quant}({self.show(v.mv)})'
         if isinstance(v, Dv):
             return '{' + ', '.join(f'{k!r}: {self.show(x)}' for k, x in v.items.items()) + '}'
         return repr(v)
@@ -2181,6 +2273,10 @@ class SX:
             return [(s2, NoneV())]
         if isinstance(recv, Tv) and attr == 'append':
             return [(st.with_effect(('list-append', self.show(recv), args, n.lineno)), NoneV())]
+        if attr == 'setdefault' and len(args) == 2 and isinstance(args[0], Sv) and isinstance(recv, (Unk, Dyn, Ov)) \
+                and isinstance(args[1], Tv) and not args[1].items:
+            # d.setdefault(key, []) is d[key] (created empty on first use): same list as the subscript
+            return [(st, self.subscript(recv, args[0], st, frame, n))]
         if isinstance(recv, Sv) and all(isinstance(a, Sv) for a in args) and not kwargs and attr in (
                 'replace', 'strip', 'lower', 'upper', 'title', 'lstrip', 'rstrip', 'capitalize'):
             return [(st, Sv(getattr(recv.s, attr)(*[a.s for a in args])))]
@@ -2188,6 +2284,26 @@ class SX:
             return [(st, Unk(recv.text + '.keys()'))]
         return [(st.with_effect(('opaque-call', self.show(recv) + '.' + attr, args, kwargs, n.lineno)),
                  Unk(ast.unparse(n)[:80]))]
+
+    def any_all(self, name, truths, st):
+        """any()/all() over truth values some of which are symbolic: short-circuit forks, one boolean per path"""
+        stop_on = (name == 'any')
+        res, cur = [], [st]
+        for t in truths:
+            nxt = []
+            for s_ in cur:
+                if isinstance(t, bool):
+                    (res.append((s_, Bv(stop_on))) if t == stop_on else nxt.append(s_))
+                    continue
+                a, b = s_.with_guard(t), s_.with_guard(t.negate())
+                hit, go = (a, b) if stop_on else (b, a)
+                if hit is not None:
+                    res.append((hit, Bv(stop_on)))
+                if go is not None:
+                    nxt.append(go)
+            cur = nxt
+        res += [(s_, Bv(not stop_on)) for s_ in cur]
+        return res
 
     def num_arg(self, v):
         if isinstance(v, (N, Dyn)):
@@ -2241,6 +2357,10 @@ class SX:
                 return [(st, Q(args[0].kind, self.ctx.call(name, [a.term for a in args]), u))]
             if all(isinstance(a, (N, Dyn)) for a in args):
                 return [(st, N(self.ctx.call(name, [a.term for a in args])))]
+        if name in ('any', 'all') and len(args) == 1 and isinstance(args[0], Mv):
+            return [(st, Qv(name, args[0]))]
+        if name in ('any', 'all') and len(args) == 1 and isinstance(args[0], Tv) and not self.eval_comprehensions:
+            return self.any_all(name, [self.truth(i) for i in args[0].items], st)
         if self.eval_comprehensions and len(args) >= 1 and isinstance(args[0], Tv):
             items = args[0].items
             if name == 'len' and len(args) == 1:
@@ -2256,7 +2376,7 @@ class SX:
                 ts = [self.truth(i) for i in items]
                 if all(isinstance(t, bool) for t in ts):
                     return [(st, Bv(any(ts) if name == 'any' else all(ts)))]
-                raise CannotDecide(f'{name}() over undecided truth values')
+                return self.any_all(name, ts, st)
             if name == 'next':
                 if items:
                     return [(st, items[0])]
@@ -2270,7 +2390,7 @@ class SX:
                 d = {}
                 for x in names:
                     d[x] = d.get(x, 0) + 1
-                return [(st, Dv({k: N(Rat.const(c), 'int') for k, c in d.items()}))]
+                return [(st, Dv({k: N(Rat.const(c), 'int') for k, c in d.items()}, counter=True))]
             if name in ('set', 'frozenset'):
                 return [(st, Tv([Sv(x) for x in dict.fromkeys(names)], 'set'))]
             if name == 'sorted':
@@ -2289,6 +2409,8 @@ class SX:
             return [(st, Tv([Tv([N(Rat.const(i), 'int'), x], 'tuple') for i, x in enumerate(args[0].items)]))]
         if self.eval_comprehensions and name == 'range' and args and all(isinstance(a, N) and a.term.is_const() for a in args):
             return [(st, Tv([N(Rat.const(i), 'int') for i in range(*[int(a.term.const_value()) for a in args])]))]
+        if self.eval_comprehensions and name in ('Counter', 'defaultdict', 'OrderedDict') and not args:
+            return [(st, Dv({}, counter=(name in ('Counter', 'defaultdict'))))]
         if self.eval_comprehensions and name in ('set', 'list', 'dict') and not args:
             return [(st, Tv([], 'set' if name == 'set' else 'list') if name != 'dict' else Dv({}))]
         if self.eval_comprehensions and name == 'filter' and len(args) == 2 and isinstance(args[1], Tv):
@@ -2339,6 +2461,10 @@ class SX:
             return [(st.with_effect(('new', name, args, kwargs, n.lineno)), Ov(f'new:{name}@{n.lineno}', name, True))]
         # local callable value?
         fv = st.env.get(name)
+        if isinstance(fv, Cv) and fv.of is None and m.is_quantity(fv.name):
+            return self.construct(n, fv.name, args, kwargs, st, frame)        # a local bound to a quantity class
+        if isinstance(fv, Cv) and fv.of is None and fv.name in m.classes:
+            return [(st.with_effect(('new', fv.name, args, kwargs, n.lineno)), Ov(f'new:{fv.name}@{n.lineno}', fv.name, True))]
         if isinstance(fv, Ov) and '.' in fv.path and not fv.path.startswith('new:'):
             # a local alias of an attribute (`compare = self.operator`): the call is the call of that attribute
             owner, attr = fv.path.rsplit('.', 1)
@@ -2376,7 +2502,7 @@ class SX:
                 return Bv(self.model.is_subclass(a.name, b.name))
             return Bsym(G('issubclass', (self.show(a), self.show(b))))
         obj, clsarg = args
-        names = self.class_names(n.args[1], clsarg)
+        names = self.class_names(n.args[1], clsarg, st.env)
         if names is None and isinstance(clsarg, Cv) and clsarg.of is None:
             names = [clsarg.name]
         if names is None:
@@ -2408,8 +2534,9 @@ class SX:
             return Bsym(G('isinstance', (obj.path, tuple(sorted(names)))))
         return Bsym(G('isinstance', (self.show(obj), tuple(sorted(names)))))
 
-    def class_names(self, node, val):
+    def class_names(self, node, val, env=None):
         names = []
+        env = env or {}
 
         def flat(x):
             if isinstance(x, ast.BinOp) and isinstance(x.op, ast.BitOr):
@@ -2418,6 +2545,10 @@ class SX:
             elif isinstance(x, ast.Tuple):
                 for e in x.elts:
                     flat(e)
+            elif isinstance(x, ast.Name) and isinstance(env.get(x.id), Cv):
+                names.append(env[x.id].name)           # a local bound to a class
+            elif isinstance(x, ast.Name) and isinstance(env.get(x.id), Tv) and all(isinstance(i, Cv) for i in env[x.id].items):
+                names.extend(i.name for i in env[x.id].items)
             elif isinstance(x, ast.Name):
                 names.append(x.id)
             else:
